@@ -22,12 +22,15 @@ LEVEL = 'exploration'
 RULE = ('inputs: every truncation and seeded single-character corruptions (hostile set: quotes, backslash, /, *, '
         'brackets, every line terminator, NUL, BOM, non-BMP, lone surrogates) of corpus and generated programs; '
         'every string of length<=3 (thorough: 4, sharded, time-capped) over a 44-character lexical alphabet; random '
-        'strings over the full Unicode range; pathological nesting and length. A case = (text, entry point); '
+        'strings over the full Unicode range; pathological nesting and length, runs of 10 .. 3000 (thorough: 60000) '
+        'separators (blank lines, comments) between tokens; a bounded-progress probe in a child process: 150 '
+        'repetition shapes (escapes in unterminated strings, regex bodies, comments, look-aheads) escalated from 6 to '
+        '320 repetitions, each parse limited to 2 CPU seconds. A case = (text, entry point); '
         'non-trivial = the input is NOT accepted (an accepted input exercises no error path); distinct by text.')
 ASSUMPTIONS = ['documented behaviour: non-str arguments raise TypeError (not generated); memory limits out of scope',
                'step budget: token deliveries + error-handler calls <= 6*len(text)+60 per parse']
 BUDGET_S = {'quick': 55, 'thorough': 1500}
-REQUIRED_HITS = ['parse', 'lexer_iter', 'message_position_checked', 'step_hook']
+REQUIRED_HITS = ['parse', 'lexer_iter', 'message_position_checked', 'step_hook', 'blowup_probe', 'shape']
 FLOOR = {'quick': 20000, 'thorough': 300000}
 
 CHAR_ALPHABET = list('ab1.0xe"\'\\/*(){}[];,:?=+-<>!&|~^% \n\r\t_$') + ['\u2028', '\ufeff', '\xe9', '\u0660', '\u0301', '\u203f']
@@ -230,6 +233,36 @@ def run(ctx):
         ctx.extra['enumeration_length'] = k
         ctx.extra['enumeration_alphabet_size'] = len(CHAR_ALPHABET)
 
+        # pathological shapes (shard 0 .. 3 share them)
+        shapes = [
+            ('nested_parens', lambda n: '(' * n + 'a' + ')' * n), ('nested_brackets', lambda n: '[' * n + ']' * n),
+            ('nested_braces', lambda n: '{' * n + '}' * n), ('open_parens', lambda n: '(' * n),
+            ('close_parens', lambda n: ')' * n), ('long_sum', lambda n: 'a' + '+a' * n),
+            ('many_statements', lambda n: 'a=1;' * n), ('many_newlines', lambda n: 'a\n' * n),
+            ('unary_chain', lambda n: '-' * n + 'a'), ('slashes', lambda n: '/' * n),
+            ('long_string', lambda n: '"' + 'x' * n + '"'), ('long_comment', lambda n: '/*' + '*' * n + '/'),
+            ('unterminated_comment', lambda n: '/*' + 'x' * n), ('backslashes', lambda n: '"' + '\\' * n),
+            ('new_chain', lambda n: 'new ' * n + 'a'), ('dots', lambda n: 'a' + '.b' * n),
+            ('elisions', lambda n: '[' + ',' * n + ']'), ('nested_functions', lambda n: 'function f(){' * n + '}' * n),
+            ('ternaries', lambda n: 'a?b:' * n + 'c'), ('if_else_chain', lambda n: 'if(a)b;else ' * n + 'c'),
+        ]
+        # long runs of separators between two tokens, inside a call, at the start and at the end
+        seps = [('blank_lines', '\n'), ('crlf_lines', '\r\n'), ('ls_lines', '\u2028'), ('blanks', ' '), ('tabs_nbsp', '\t\xa0'),
+                ('line_comments', '//c\n'), ('empty_line_comments', '//\n'), ('block_comments', '/**/'),
+                ('multiline_block_comments', '/*\n*/'), ('mixed', ' /* c */ // d\n\t')]
+        for sname, u in seps:
+            shapes.append(('run_between:' + sname, lambda n, u=u: 'var a=1;' + u * n + 'a=2;'))
+            shapes.append(('run_in_call:' + sname, lambda n, u=u: 'f(' + u * n + 'a' + u * n + ')'))
+            shapes.append(('run_at_ends:' + sname, lambda n, u=u: u * n + 'a' + u * n))
+            shapes.append(('run_before_error:' + sname, lambda n, u=u: 'a = (' + u * n + ';'))
+        sizes = ctx.pick([10, 300, 3000], [10, 300, 3000, 10000, 60000])
+        for i, (name, f) in enumerate(shapes):
+            if i % ctx.nshards != ctx.shard:
+                continue
+            for n in sizes:
+                check(ctx, steps, f(n), 'shape:' + name,
+                      ('parse', 'parse_comments', 'lexer_comments') if name.startswith('run_') else ('parse', 'lexer'))
+                ctx.hit('shape')
         # truncations and corruptions
         def opts_fn(i, r):
             return jsgen.Opts(clean=False, unicode_idents=(i % 3 == 0), string_continuations=(i % 2 == 0))
@@ -269,33 +302,126 @@ def run(ctx):
             if not (i & 0x7f) and ctx.out_of_time():
                 break
 
-        # pathological shapes (shard 0 .. 3 share them)
-        shapes = [
-            ('nested_parens', lambda n: '(' * n + 'a' + ')' * n), ('nested_brackets', lambda n: '[' * n + ']' * n),
-            ('nested_braces', lambda n: '{' * n + '}' * n), ('open_parens', lambda n: '(' * n),
-            ('close_parens', lambda n: ')' * n), ('long_sum', lambda n: 'a' + '+a' * n),
-            ('many_statements', lambda n: 'a=1;' * n), ('many_newlines', lambda n: 'a\n' * n),
-            ('unary_chain', lambda n: '-' * n + 'a'), ('slashes', lambda n: '/' * n),
-            ('long_string', lambda n: '"' + 'x' * n + '"'), ('long_comment', lambda n: '/*' + '*' * n + '/'),
-            ('unterminated_comment', lambda n: '/*' + 'x' * n), ('backslashes', lambda n: '"' + '\\' * n),
-            ('new_chain', lambda n: 'new ' * n + 'a'), ('dots', lambda n: 'a' + '.b' * n),
-            ('elisions', lambda n: '[' + ',' * n + ']'), ('nested_functions', lambda n: 'function f(){' * n + '}' * n),
-            ('ternaries', lambda n: 'a?b:' * n + 'c'), ('if_else_chain', lambda n: 'if(a)b;else ' * n + 'c'),
-        ]
-        sizes = ctx.pick([10, 300, 3000], [10, 300, 3000, 10000, 60000])
-        for i, (name, f) in enumerate(shapes):
-            if i % ctx.nshards != ctx.shard:
-                continue
-            for n in sizes:
-                check(ctx, steps, f(n), 'shape:' + name, ('parse', 'lexer'))
-                if ctx.out_of_time():
-                    break
         ctx.extra['max_steps_per_char__max'] = round(steps.max_ratio, 3)
+        if ctx.shard == 0:
+            blowup_probe(ctx)
     finally:
         steps.remove()
 
 
+# ---------------------------------------------------------------------------
+# bounded progress: "either parses or raises" includes "within a sane time".  Repetitions of units that a
+# backtracking pattern can match in several ways make the lexer's regular expressions exponential; the work
+# happens inside one C call, where neither the step hook nor a signal can interrupt it, so the probe runs in a
+# child process that escalates the repetition count itself and stops at the first slow parse.
+
+BLOWUP_LIMIT_S = 2.0        # CPU seconds for an input of at most ~1300 characters (normal: milliseconds)
+BLOWUP_COUNTS = [6, 8, 10, 12, 14, 16, 18, 20, 22, 24, 26, 28, 30, 40, 80, 160, 320]
+
+
+def blowup_inputs():
+    esc = ['\\00', '\\0', '\\12', '\\1', '\\7', '\\377', '\\x41', '\\u0041', '\\\n', '\\\r\n', 'a', '\\a', '\\8',
+           '\\u2028', '\\\\']
+    out = []
+    for q, other in (('"', "'"), ("'", '"')):
+        for u in esc + [other, '\\' + q]:
+            out.append(('string%s:%s' % (q, u), q, u, ''))
+            out.append(('string%s:%s:closed_after_bad_escape' % (q, u), q, u, '\\x' + q))
+    for u in ['[a]', '\\/', '(a)', '[\\]]', 'a*', '[/]', '\\\\', '(?:a|b)', '[^/]', 'a', '[[]', '\\[', '[a-z]+']:
+        out.append(('regex:' + u, 'x=/', u, ''))
+        out.append(('regex:' + u + ':open_class', 'x=/', u, '['))
+    for u in ['*', '* ', '/*', 'x', '*/*', '**/ /*', '\n*']:
+        out.append(('block_comment:' + u, '/*', u, ''))
+    for u in ['a\\u0061', '\\u0061', 'a1', 'x\u0301', '\\u00e9\u0301', '$_']:
+        out.append(('identifier:' + u, '', u, '\\u0020'))
+    for u in ['1e1', '0x1', '1.', '.1', '1e+', '00', '0.']:
+        out.append(('number:' + u, '', u, ''))
+    for u in ['//', '/**/', '<!--', ' \t', '\n', '\u2028', '\r\n']:
+        out.append(('separators:' + u, 'a', u, '"'))
+    for u in ['get ', 'set\n', 'get/**/', 'get "a"', 'set 1']:
+        out.append(('accessor_lookahead:' + u, '({', u, ''))
+    for u in ['return\n', 'break//\n', 'continue/**/\n', 'throw /*\n*/']:
+        out.append(('restricted_lookahead:' + u, '', u, ''))
+    return out
+
+
+BLOWUP_CHILD = r'''
+import json, sys, time
+sys.path.insert(0, %(verif)r)
+from vk import boot
+boot.pin(%(root)r)
+from calmjs.parse.parsers.es5 import parse
+from vk.mon import c12
+parse('a')
+for label, prefix, unit, suffix in c12.blowup_inputs():
+    for n in c12.BLOWUP_COUNTS:
+        text = prefix + unit * n + suffix
+        if len(text) > 1400:
+            break
+        t0 = time.process_time()
+        try:
+            parse(text)
+            outcome = 'accepted'
+        except Exception as e:
+            outcome = type(e).__name__
+        dt = time.process_time() - t0
+        print(json.dumps([label, n, len(text), round(dt, 4), outcome, text if dt > c12.BLOWUP_LIMIT_S else '']))
+        sys.stdout.flush()
+        if dt > c12.BLOWUP_LIMIT_S:
+            break
+'''
+
+
+def blowup_probe(ctx):
+    import json
+    import os
+    import subprocess
+    import sys
+    from vk import boot
+    code = BLOWUP_CHILD % {'verif': os.path.dirname(os.path.dirname(os.path.dirname(os.path.abspath(__file__)))),
+                           'root': os.environ[boot.ENV_SCRATCH]}
+    try:
+        r = subprocess.run([sys.executable, '-c', code], capture_output=True, text=True, timeout=420)
+        lines, timed_out = r.stdout.split('\n'), False
+        if r.returncode != 0:
+            raise HarnessBroken('C12 blow-up probe child failed: %s' % r.stderr[-400:])
+    except subprocess.TimeoutExpired as e:
+        lines, timed_out = (e.stdout.decode() if isinstance(e.stdout, bytes) else (e.stdout or '')).split('\n'), True
+    worst = 0.0
+    labels = set()
+    for line in lines:
+        if not line.strip():
+            continue
+        label, n, length, dt, outcome, text = json.loads(line)
+        labels.add(label)
+        worst = max(worst, dt)
+        ctx.hit('blowup_probe')
+        ctx.case(('blowup', label, n), outcome != 'accepted')
+        if dt > BLOWUP_LIMIT_S:
+            ctx.violation('C12:no_result_in_bounded_time:%s' % label.split(':')[0], {'text': text, 'entry': 'timed'},
+                          'parse() needed %.1f CPU seconds for this input of %d characters (%s repeated %d times); the '
+                          'same shape with fewer repetitions took milliseconds' % (dt, length, label, n))
+    ctx.extra['blowup_labels_probed__max'] = len(labels)
+    ctx.extra['blowup_worst_cpu_seconds__max'] = worst
+    if timed_out:
+        ctx.note('the blow-up probe child did not finish within its wall-clock watchdog; what it reported is kept')
+        ctx.count('blowup_probe_watchdog')
+
+
 def replay(ctx, witness):
+    if witness.get('entry') == 'timed':
+        import time
+        from calmjs.parse.parsers.es5 import parse
+        t0 = time.process_time()
+        try:
+            parse(witness['text'])
+        except Exception:
+            pass
+        dt = time.process_time() - t0
+        ctx.case(('blowup', witness['text']), True)
+        if dt > BLOWUP_LIMIT_S:
+            ctx.violation('C12:no_result_in_bounded_time:replay', witness, 'parse() needed %.1f CPU seconds' % dt)
+        return
     steps = Steps(ctx).install()
     try:
         check(ctx, steps, witness['text'], 'replay', (witness.get('entry', 'parse'),))
